@@ -647,28 +647,37 @@ where
     let mut cnt = 0u64;
     for &len in &lens {
         for (pn, pat) in &patterns {
-            let mut acc = <F as MultiplyAccumulate>::Accumulator::new();
-            let mut arr = <F as MultiplyAccumulate>::AccumulatorArray::<3>::new();
-            let mut expect = 0u128;
-            let mut expect_arr = [0u128; 3];
-            for i in 0..len {
-                let (a, b) = pat(i);
-                acc.multiply_accumulate(F::from_u(a), F::from_u(b));
-                expect = kind.add(expect, kind.mul(a, b));
-                let la = [a, (a + 1) % o, (o - 1)];
-                let lb = [b, (o - 1), (b + 2) % o];
-                arr.multiply_accumulate(&la.map(F::from_u), &lb.map(F::from_u));
-                for j in 0..3 {
-                    expect_arr[j] = kind.add(expect_arr[j], kind.mul(la[j], lb[j]));
+            // an overflow inside the accumulator is a debug panic: caught and reported, not a crash of the harness
+            let res = common::catch(|| {
+                let mut acc = <F as MultiplyAccumulate>::Accumulator::new();
+                let mut arr = <F as MultiplyAccumulate>::AccumulatorArray::<3>::new();
+                let mut expect = 0u128;
+                let mut expect_arr = [0u128; 3];
+                for i in 0..len {
+                    let (a, b) = pat(i);
+                    acc.multiply_accumulate(F::from_u(a), F::from_u(b));
+                    expect = kind.add(expect, kind.mul(a, b));
+                    let la = [a, (a + 1) % o, (o - 1)];
+                    let lb = [b, (o - 1), (b + 2) % o];
+                    arr.multiply_accumulate(&la.map(F::from_u), &lb.map(F::from_u));
+                    for j in 0..3 {
+                        expect_arr[j] = kind.add(expect_arr[j], kind.mul(la[j], lb[j]));
+                    }
                 }
-            }
-            let got = acc.take();
-            if got.to_u() != expect || got != F::from_u(expect) {
-                f.hit("accumulator", || format!("len={len} pattern={pn}: got {} expected {expect}", got.to_u()));
-            }
-            let got_arr = arr.take();
-            if got_arr.map(|x| x.to_u()) != expect_arr {
-                f.hit("accumulator-array", || format!("len={len} pattern={pn}"));
+                let got = acc.take();
+                let got_arr = arr.take();
+                (got, got_arr, expect, expect_arr)
+            });
+            match res {
+                Err(p) => f.hit("accumulator-panic", || format!("len={len} pattern={pn}: {p}")),
+                Ok((got, got_arr, expect, expect_arr)) => {
+                    if got.to_u() != expect || got != F::from_u(expect) {
+                        f.hit("accumulator", || format!("len={len} pattern={pn}: got {} expected {expect}", got.to_u()));
+                    }
+                    if got_arr.map(|x| x.to_u()) != expect_arr {
+                        f.hit("accumulator-array", || format!("len={len} pattern={pn}"));
+                    }
+                }
             }
             cnt += 2;
         }
